@@ -453,3 +453,10 @@ def c01_6(run):
     if not n_ok or not n_err:
         raise Inconclusive(f'vacuity: ok {n_ok}, err {n_err}')
     run.require_reached(*run.cur.reach)
+
+
+# ----------------------------------------------------------------------------------------------------------------- C01-7 (supply changes through IBC; shared with C18)
+from obligations import c18 as _c18
+obligation('C01', 'C01-7a Ics20Withdrawal::execute: the only outbound supply change debits the sender exactly the amount and books it in escrow / burns it (= C18-1b)')(_c18.ics20_obligation('C01'))
+obligation('C01', 'C01-7b ICS20 receive: the only inbound supply change credits exactly the packet amount, against escrow for returning assets (= C18-3)')(_c18.c18_3)
+obligation('C01', 'C01-7c ICS20 refund: the sender gets back exactly the packet amount, escrow released by exactly that amount (= C18-5)')(_c18.c18_5)
